@@ -12,8 +12,8 @@ import subprocess
 import sys
 import time
 
-VERIF = '/verif'
-REPO = '/repo'
+VERIF = os.environ.get('VERIF_HOME') or os.path.dirname(os.path.dirname(os.path.dirname(os.path.abspath(__file__))))
+REPO = os.environ.get('VERIF_REPO', '/repo')
 OUT = os.path.join(VERIF, 'out')
 SPEC = os.path.join(VERIF, 'spec')
 TLA_CP = '/opt/veriftools/tla/tla2tools.jar:/opt/veriftools/tla/CommunityModules-deps.jar'
@@ -54,6 +54,8 @@ def build_driver(workdir, race=False):
     os.makedirs(workdir, exist_ok=True)
     h = os.path.join(VERIF, 'harness')
     shutil.copyfile(os.path.join(REPO, 'go.sum'), os.path.join(h, 'go.sum'))
+    if REPO != '/repo':   # private worktree of the repository (development only)
+        sh([go_bin(), 'mod', 'edit', '-replace', 'github.com/avos-io/goat=' + REPO], cwd=h, env=GOENV)
     out = os.path.join(workdir, 'driver.test')
     cmd = [go_bin(), 'test', '-c', '-tags', 'verif', '-o', out]
     env = dict(GOENV)
